@@ -20,12 +20,15 @@ def beat(n):
 '''
 
 
-def mc_cfg(ab=False, n=2, rich=False, invs=INVS):
-    return dict(constants=dict(MaxPlugins=n, AbortOnFirstFailure=ab, Rich=rich), invariants=invs, deadlock=False)
+def mc_cfg(ab=False, n=2, rich=False, invs=INVS, lives=1):
+    return dict(constants=dict(MaxPlugins=n, AbortOnFirstFailure=ab, Rich=rich, MaxLives=lives), invariants=invs,
+                deadlock=False)
 
 
-def run_case(wd, plugins, span_first=False):
-    """plugins: list of model records. Returns dict(loaded=[idx..], called={idx: sorted callbacks}, ...)."""
+def run_case(wd, plugins, span_first=False, later_lives=()):
+    """plugins: list of model records. Returns dict(loaded=[idx..], called={idx: sorted callbacks}, ...).
+    later_lives: further lists of model records (the same plugins, some switched on/off by configuration): the agent
+    is shut down and a new Deep is started on the SAME ConfigService for each; out['lives'] has one result per life."""
     import deep.api.plugin as plugin_mod
     from deep.api.plugin import Plugin
     from deep.api.deep import Deep
@@ -69,76 +72,97 @@ def run_case(wd, plugins, span_first=False):
         custom['PLUGINS'] = names[nb:]
         tps = TracepointConfigService()
         cfg = ConfigService(custom, tracepoints=tps)
-        deep = Deep(cfg)
-        chan = fakes.FakeChannel()
-        deep.grpc.start = lambda: setattr(deep.grpc, 'channel', chan)
-        deep.grpc._metadata = []
-        sent = []
         base = path.rsplit('/', 1)[-1]
         inf = {'fire_count': '-1', 'fire_period': '0'}
-
-        def poll(request):
-            tpa = TracePointConfig(ID='A', path=base, line_number=marks['beat'], args=dict(inf, log_msg='beat {n}'))
-            tpb = TracePointConfig(ID='B', path=base, line_number=marks['beat'], args=dict(inf, snapshot='no_collect'),
-                                   metrics=[Metric(name='m', type=MetricType.COUNTER)])
-            tpc = TracePointConfig(ID='C', path=base, line_number=marks['beat'],
-                                   args=dict(inf, snapshot='no_collect', span='line'))
-            # the order of the tracepoints of the line is the order their results are processed in: the span (whose
-            # completion is deferred to the end of the line) before or after the log
-            return PollResponse(ts_nanos=1, current_hash='h', response=[tpc, tpa, tpb] if span_first else [tpa, tpb, tpc],
-                                response_type=ResponseType.UPDATE)
-        chan.script('/poll', poll)
-        chan.script('/send', lambda req: sent.append(req) or None)
-        problems = []
+        lives_out = []
+        deeps = []
         try:
-            try:
-                deep.start()
-            except BaseException as ex:
-                problems.append('Deep.start raised %r' % (ex,))
-            if not deep.started:
-                problems.append('the agent did not start')
-            deep.task_handler.flush()            # the initial config update is applied by a pool task
-            deep.task_handler._open = True
-            loaded = [int(p.name[1:]) for p in cfg.plugins]
-            try:
-                res = mod.beat(1)
-            except BaseException as ex:
-                res = repr(ex)
-            if res != 3:
-                problems.append('host function returned %r' % (res,))
-            if sys.gettrace() is None or getattr(sys.gettrace(), '__self__', None) is not deep.trigger_handler:
-                problems.append('the agent is no longer the trace function of the thread')
-            try:
-                deep.shutdown()
-            except BaseException as ex:
-                problems.append('Deep.shutdown raised %r' % (ex,))
-            if deep.started:
-                problems.append('the agent is still started after shutdown')
-            called = {}
-            for i, p in insts.items():
-                called[i] = sorted(CALL_NAME.get(c[0], c[0]) for c in p.calls)
-            decos = set()
-            for req in sent:
-                for kv in req.attributes:
-                    if kv.key.startswith('dec.P'):
-                        decos.add(int(kv.key[5:]))
-            out.update(loaded=loaded, called=called, sent=len(sent), decorations=sorted(decos), problems=problems,
-                       resource_keys=sorted(k for k in cfg.resource.attributes.keys() if k.startswith('plugin.')))
+            for life_no, life_plugins in enumerate([plugins] + list(later_lives)):
+                if life_no > 0:
+                    # the application switches plugins on/off by configuration and starts the agent again
+                    for i, rec in enumerate(life_plugins, 1):
+                        if rec['load'] == 'inactive':
+                            cfg._ConfigService__custom['PLUGIN_P%d' % i] = 'false'
+                        elif rec['load'] == 'ok':
+                            cfg._ConfigService__custom.pop('PLUGIN_P%d' % i, None)
+                    for p in insts.values():
+                        del p.calls[:]
+                        del p.spans[:]
+                deep = Deep(cfg)
+                deeps.append(deep)
+                chan = fakes.FakeChannel()
+                deep.grpc.start = lambda deep=deep, chan=chan: setattr(deep.grpc, 'channel', chan)
+                deep.grpc._metadata = []
+                sent = []
+
+                def poll(request):
+                    tpa = TracePointConfig(ID='A', path=base, line_number=marks['beat'], args=dict(inf, log_msg='beat {n}'))
+                    tpb = TracePointConfig(ID='B', path=base, line_number=marks['beat'],
+                                           args=dict(inf, snapshot='no_collect'),
+                                           metrics=[Metric(name='m', type=MetricType.COUNTER)])
+                    tpc = TracePointConfig(ID='C', path=base, line_number=marks['beat'],
+                                           args=dict(inf, snapshot='no_collect', span='line'))
+                    # the order of the tracepoints of the line is the order their results are processed in: the span
+                    # (whose completion is deferred to the end of the line) before or after the log
+                    return PollResponse(ts_nanos=1, current_hash='h',
+                                        response=[tpc, tpa, tpb] if span_first else [tpa, tpb, tpc],
+                                        response_type=ResponseType.UPDATE)
+                chan.script('/poll', poll)
+                chan.script('/send', lambda req, sent=sent: sent.append(req) or None)
+                problems = []
+                try:
+                    deep.start()
+                except BaseException as ex:
+                    problems.append('Deep.start raised %r' % (ex,))
+                if not deep.started:
+                    problems.append('the agent did not start')
+                deep.task_handler.flush()            # the initial config update is applied by a pool task
+                deep.task_handler._open = True
+                loaded = [int(p.name[1:]) for p in cfg.plugins]
+                try:
+                    res = mod.beat(1)
+                except BaseException as ex:
+                    res = repr(ex)
+                if res != 3:
+                    problems.append('host function returned %r' % (res,))
+                if sys.gettrace() is None or getattr(sys.gettrace(), '__self__', None) is not deep.trigger_handler:
+                    problems.append('the agent is no longer the trace function of the thread')
+                try:
+                    deep.shutdown()
+                except BaseException as ex:
+                    problems.append('Deep.shutdown raised %r' % (ex,))
+                if deep.started:
+                    problems.append('the agent is still started after shutdown')
+                called = {}
+                for i, p in insts.items():
+                    called[i] = sorted(CALL_NAME.get(c_[0], c_[0]) for c_ in p.calls)
+                decos = set()
+                for req in sent:
+                    for kv in req.attributes:
+                        if kv.key.startswith('dec.P'):
+                            decos.add(int(kv.key[5:]))
+                lives_out.append(dict(loaded=loaded, called=called, sent=len(sent), decorations=sorted(decos),
+                                      problems=problems,
+                                      resource_keys=sorted(k for k in cfg.resource.attributes.keys()
+                                                           if k.startswith('plugin.'))))
+            out.update(lives_out[0])
+            out['lives'] = lives_out
         finally:
-            try:
-                deep.task_handler._pool.shutdown(wait=False)
-            except BaseException:
-                pass
+            for deep in deeps:
+                try:
+                    deep.task_handler._pool.shutdown(wait=False)
+                except BaseException:
+                    pass
+                store = getattr(type(deep.trigger_handler._callbacks), '_ThreadLocal__store', {})
+                store.pop(threading.get_ident(), None)
             sys.settrace(None)
             threading.settrace(saved_thr)
             plugin_mod.DEEP_PLUGINS = saved_builtin
             sys.modules.pop(m.__name__, None)
             sys.modules.pop(mod.__name__, None)
-            store = getattr(type(deep.trigger_handler._callbacks), '_ThreadLocal__store', {})
-            store.pop(threading.get_ident(), None)
     th = threading.Thread(target=body)
     th.start()
-    th.join(60)
+    th.join(90)
     if 'loaded' not in out:
         raise tlc.MachineryError('plugin case did not finish: %s' % out.get('problems'))
     return out
@@ -192,7 +216,7 @@ def curated_finals():
     text = """---- MODULE MC_PluginsPinned ----
 EXTENDS Plugins
 PinnedSet == {%s}
-PinnedInit == /\\ plugins \\in PinnedSet /\\ phase = 0 /\\ loaded = <<>> /\\ spansOpen = {} /\\ aborted = {}
+PinnedInit == /\\ plugins \\in PinnedSet /\\ phase = 0 /\\ loaded = <<>> /\\ spansOpen = {} /\\ aborted = {} /\\ life = 1
               /\\ called = [i \\in 1..Len(plugins) |-> <<>>]
 PinnedNext == Load \\/ Activity \\/ (phase = Len(Callbacks) + 1 /\\ UNCHANGED vars)
 ====
@@ -202,7 +226,7 @@ PinnedNext == Load \\/ Activity \\/ (phase = Len(Callbacks) + 1 /\\ UNCHANGED va
     with open(path, 'w') as f:
         f.write(text)
     r = tlc.run('MC_PluginsPinned', cfg=dict(init='PinnedInit', next_='PinnedNext',
-                                             constants=dict(MaxPlugins=3, AbortOnFirstFailure=False, Rich=True),
+                                             constants=dict(MaxPlugins=3, AbortOnFirstFailure=False, Rich=True, MaxLives=1),
                                              invariants=INVS, deadlock=False),
                 dump=True, coverage=False, extra_modules=[path])
     if not r.ok:
@@ -253,5 +277,46 @@ def run(c):
                     break
 
 
+def lives_leg(c, wd, n):
+    """Two lives of the agent on ONE configuration object, plugins switched on/off in between (NextLife): each life is
+    that of its own switches. The end-of-life states of the behaviour are the expectations."""
+    sim = tlc.simulate('Plugins', mc_cfg(n=3, rich=True, lives=2), num=n * 6, depth=26, seed=c.seed + 13)
+    c.transitions += sim.generated
+    done = 0
+    shown = 0
+    for beh in sim.behaviours:
+        ends = [st for (a, args, st) in beh if st['phase'] == 8]
+        # one end-of-life state per life (the terminal state repeats)
+        by_life = {}
+        for st in ends:
+            by_life[st['life']] = st
+        if sorted(by_life) != [1, 2]:
+            continue
+        p1, p2 = to_json(by_life[1]['plugins']), to_json(by_life[2]['plugins'])
+        real = run_case(wd, p1, span_first=(done % 2 == 1), later_lives=[p2])
+        done += 1
+        problems = []
+        for life_no, st in ((1, by_life[1]), (2, by_life[2])):
+            problems += ['life %d: %s' % (life_no, x) for x in compare(st, real['lives'][life_no - 1])]
+        c.traces_validated += 1
+        c.note_case(key=('two-lives', str(p1), str(p2)), nontrivial=True)
+        if problems:
+            path = c.save_replay({'direction': 'S2C', 'module': 'Plugins', 'kind': 'two-lives', 'life1': p1, 'life2': p2,
+                                  'problems': problems})
+            if c.violation('two lives on one configuration object, plugins %s then %s: %s' % (p1, p2, problems[:3]), path):
+                shown += 1
+                if shown >= 6:
+                    return
+        if done >= n:
+            return
+
+
+def run_all(c):
+    run(c)
+    wd = tlc.scratch('c20l_')
+    c.mc('Plugins', mc_cfg(n=2, rich=False, lives=2), label='2 plugins, reduced grid, 2 lives', must_cover=['NextLife'])
+    lives_leg(c, wd, 10 if c.tier == 'quick' else 300)
+
+
 if __name__ == '__main__':
-    core.main('C20', run)
+    core.main('C20', run_all)
